@@ -22,7 +22,7 @@ LEVEL_NOTE = ("Trusted: SimNet FIFO model, reference cost evaluator. Snapshots a
 RULE = ("case = DCOP + algorithm + parameters + schedule + seed; non-trivial = >=1 cycle in which some variable "
         "changed value; distinct by sha1(case)")
 ASSUMPTIONS = ["costs are ints or dyadic floats (exact sums)", "stop_cycle 3..10 bounds each run"]
-BUDGET = {"quick": {"workers": 8, "examples": 150, "seconds": 45},
+BUDGET = {"quick": {"workers": 8, "examples": 450, "seconds": 45},
           "thorough": {"workers": 16, "examples": 2500, "seconds": 600}}
 
 
@@ -30,6 +30,8 @@ BUDGET = {"quick": {"workers": 8, "examples": 150, "seconds": 45},
 def cases(draw, algos=("mgm", "mgm2")):
     desc = draw(gen.dcops(min_vars=1, max_vars=6, min_dom=1, max_dom=3, max_constraints=7, arities=(1, 2, 2, 3),
                           var_costs=True, costs=gen.mixed_costs, initial=True))
+    if draw(st.integers(0, 5)) == 0:
+        gen.lift_big_m(desc)
     algo = draw(st.sampled_from(list(algos)))
     params = {"stop_cycle": draw(st.integers(3, 10))}
     if algo == "mgm":
@@ -41,10 +43,27 @@ def cases(draw, algos=("mgm", "mgm2")):
             "seed": draw(st.integers(0, 10000))}
 
 
+@st.composite
+def tie_cases(draw, algos=("mgm", "mgm2", "mgm2")):
+    """DCOPs full of ties (costs 0/1/2, own domain per variable): equal gains between a pair and a third variable,
+    between two offers, between neighbours."""
+    algo = draw(st.sampled_from(list(algos)))
+    params = {"stop_cycle": draw(st.integers(4, 12))}
+    if algo == "mgm":
+        params["break_mode"] = draw(st.sampled_from(["lexic", "random"]))
+    else:
+        params["threshold"] = draw(st.sampled_from([0.3, 0.5, 0.7]))
+        params["favor"] = draw(st.sampled_from(["unilateral", "no", "coordinated"]))
+    return {"dcop": draw(gen.tie_dcops()), "algo": algo, "params": params, "schedule": draw(gen.schedules(80)),
+            "seed": draw(st.integers(0, 10000))}
+
+
 def case_strategy(tier):
     import os
     only = os.environ.get("VF_ALGOS")  # development aid: restrict the algorithms explored
-    return cases(tuple(only.split(","))) if only else cases()
+    if only:
+        return cases(tuple(only.split(",")))
+    return st.one_of(cases(), cases(), cases(), tie_cases())
 
 
 class Analysis:
